@@ -158,7 +158,12 @@ pub fn gen_lib(src: &mut Src) -> (LefLibrary, Flags) {
         }
         let no = src.usize_in(0, 4);
         m.obs = (0..no).map(|_| gen_layer_block(src, &mut f)).collect();
-        m.origin = if src.bool() { Some(LefPoint::new(LefDecimal::new(0, 0), LefDecimal::new(0, 0))) } else { None };
+        // ORIGIN, zero or not: the statement ties the outline to SIZE and every coordinate to its LEF value
+        m.origin = match src.weighted(&[2, 1, 1]) {
+            0 => None,
+            1 => Some(LefPoint::new(LefDecimal::new(0, 0), LefDecimal::new(0, 0))),
+            _ => Some(LefPoint::new(LefDecimal::new(src.signed(5000), 2), LefDecimal::new(src.signed(5000), 3))),
+        };
         lib.macros.push(m);
     }
     if allow_u && src.prob(1, 4) {
